@@ -31,6 +31,10 @@ SEPS = ["", " ", "\t", ",", "\n", "\r\n", "\r", "\ufeff", "#c\n", " , \n#\r"]
 EDIT = ["a", "1", ".", '"', "\\", "#", "\n", " ", "-", "e", "{", "$", "\ud83d", "\x00"]
 
 
+# tokens whose adjacency is delicate (strings next to strings, numbers next to names / dots, spreads, punctuators)
+ADJ_TOKENS = [("S", '""', ""), ("S", '"s"', "s"), ("B", '"""b"""', "b"), ("B", '""""""', ""), ("B", '"""\n  x\n"""', "x"), ("N", "a", "a"),
+              ("I", "1", "1"), ("F", "1.5", "1.5"), ("I", "-1", "-1"), ("P", "...", None), ("P", "$", None), ("P", "{", None), ("P", ":", None),
+              ("S", '"\\""', '"'), ("N", "e1", "e1")]
 BLOCK_SIGMA = ["a", " ", "\n", '"', "\\", "\r"]
 
 
@@ -44,6 +48,8 @@ def shards(tier):
         for j in (range(len(SIGMA)) if tier == "thorough" else [None]):
             out.append(("lex", (i, j)))
     out.append(("lexshort", None))
+    for i in range(len(ADJ_TOKENS)):
+        out.append(("tokseq", i))
     for i in range(len(BLOCK_SIGMA)):
         for j in range(len(BLOCK_SIGMA)):
             out.append(("blockstrip", (i, j)))
@@ -322,6 +328,29 @@ def run_shard(shard, tier):
                 res.transitions += 1
                 if g:
                     res.outcome(tuple(t[0] for t in g))
+    elif kind == "tokseq":
+        # every sequence of <= 3 (thorough 4) delicate tokens: spaced, with minimal separators, stripped
+        first = ADJ_TOKENS[arg]
+        mode["m"] = "lex"
+        for n in range(0, 3 if tier == "quick" else 4):
+            for tup in itertools.product(ADJ_TOKENS, repeat=n):
+                toks = (first,) + tup
+                want = expected_kv(toks)
+                minimal = [""] + [" " if need_sep(toks[i - 1], toks[i]) else "" for i in range(1, len(toks))] + [""]
+                for seps in ([""] + [" "] * (len(toks) - 1) + [""], minimal, [","] * (len(toks) + 1)):
+                    src = render(toks, seps)
+                    res.states += 1
+                    res.transitions += 1
+                    rt = ref.tokens(src)
+                    if rt is None or [(k, v) for k, _a, _b, v in rt] != want:
+                        raise AssertionError(f"harness: reference tokenizer disagrees with the token list for {src!r}")
+                    if check_lex(src, res, viol) is None:
+                        break
+                    out = check_strip(src, True, res, viol)
+                    if out is None:
+                        break
+                    res.outcome(tuple(k for k, _v in want))
+        res.sample({"tokens": [t[1] for t in ADJ_TOKENS[:4]], "family": "token sequences"}, 1)
     elif kind == "blockstrip":
         # every block-string body over a small alphabet through strip_ignored_characters:
         # the minimised block string must keep its value (reference BlockStringValue)
